@@ -460,3 +460,21 @@ def context_of(body, target):
                     return rec(s.body, ctx)
         return None
     return rec(body, [])
+
+
+def canon_comp(node):
+    """Source text of ``node`` with the variables bound by its comprehensions renamed to v0, v1, ... in order of binding
+    (alpha-equivalent comprehensions get the same text)."""
+    node = copy.deepcopy(node)
+    order = []
+    for n in ast.walk(node):
+        if isinstance(n, ast.comprehension):
+            for t in ast.walk(n.target):
+                if isinstance(t, ast.Name) and t.id not in order:
+                    order.append(t.id)
+    # ast.walk is breadth first: outer comprehension targets come first, which is what two spellings of one expression share
+    ren = {name: f'v{i}' for i, name in enumerate(order)}
+    for n in ast.walk(node):
+        if isinstance(n, ast.Name) and n.id in ren:
+            n.id = ren[n.id]
+    return src(node)
